@@ -1062,7 +1062,9 @@ def replay_in(a):
              ("S in [\"a\", \"b\"]", "PASS"), ("S in [1, 2]", "FAIL"),
              # members that are equal without being identical: a string and a regex it matches, maps in another key order
              ("N in [/^a/, /^b/]", "PASS"), ("N not in [/^a/, /^b/]", "FAIL"), ("N[*] in [/^a/, /^b/]", "PASS"), ("N in [/^a/]", "FAIL"),
-             ("MS in [{\"q\": 2, \"p\": 1}, {\"p\": 3}]", "PASS"), ("MS in [{\"p\": 3}]", "FAIL"), ("S in [/^b/]", "PASS")]
+             ("MS in [{\"q\": 2, \"p\": 1}, {\"p\": 3}]", "PASS"), ("MS in [{\"p\": 3}]", "FAIL"), ("S in [/^b/]", "PASS"),
+             # the right-hand side is a query that selects nothing / an empty list: a verdict, with an empty `to` list in the report
+             ("X in Missing.q", "FAIL"), ("X in E[*]", "FAIL"), ("L[*] in Missing.q", "FAIL"), ("X IN LL[9]", "FAIL")]
     data = '{"X": 1,\n "S": "b", "L": [1, 2], "LL": [[1, 2], [3]], "E": [], "N": ["apple", "bean"], "MS": [{"p": 1, "q": 2}]}\n'
     return a.replay_cases(exe, data, cases)
 
